@@ -2,6 +2,7 @@ import SamVerif.Props.C04
 import SamVerif.Props.C04b
 import SamVerif.Props.C04c
 import SamVerif.Props.C04d
+import SamVerif.Props.C04e
 /-! Axiom audit of every C04 property theorem (parsed by vlib/common.py). -/
 open SamVerif.Backends
 #print axioms bin_agree_counterexample
@@ -50,3 +51,7 @@ open SamVerif.Backends
 #print axioms wf_needed
 #print axioms reserved_covered
 #print axioms mangle_injective
+#print axioms tsCook_isSome
+#print axioms template_literal_valid
+#print axioms template_literal_cooks
+#print axioms octal_lookahead_counterexample
